@@ -93,6 +93,8 @@ def run(ctx):
                            'the stored rows and the per-shell statistics')
     # the formulas: exact linear-form algebra in the log domain
     rule_E_shell(ctx)
+    from ..estimators import rule_neff_guard
+    rule_neff_guard(ctx)      # n_eff is 0 only when NO shell has an effective sample
     from ..initrules import rule_I1
     rule_I1(ctx, {'stats'})
     from ..shape import rule_N3
